@@ -2,6 +2,7 @@ import Gofasta.Lemmas.Enc
 import Gofasta.Model.Regions
 import Gofasta.Spec.Variants
 import Gofasta.Props.C17
+import Gofasta.Lemmas.AACalls
 /-
 C04 — variants loses no nucleotide difference and every aa call is a true translation.
 -/
@@ -86,5 +87,91 @@ example : (regionsFromGFF
        { type := "mature_protein_region_of_CDS", start := 3, stop := 8, strand := "+", phase := 0, id := some "c", name := some "c" }]
       (stringToBytes "AAATGAAACCCGGGTTAA")).map (fun x => (x.1.map (·.name), x.2)) =
     some (["c"], [1, 2, 9, 10, 11, 12, 13, 14, 15, 16, 17, 18]) := by decide +kernel
+
+open Gofasta.Lemmas in
+/-- **C04.intergenic** — outside the coding features: exactly the positions with disjoint base sets -/
+theorem intergenic (ref q : List Nat) (hl : ref.length = q.length) (hr : OkRow ref) (hq : OkRow q) (inter : List Nat) :
+    getNucsPair (ref.map (enc false)) (q.map (enc false)) (refCols (ref.map (enc false))) inter =
+      (inter.filter (differsAt ref q)).map (nucRecord ref q) :=
+  nucs_spec ref q hl hr hq inter
+
+open Gofasta.Lemmas in
+/-- **C04.coding** — inside a coding feature, codon by codon: the call iff the query codon translates unambiguously
+(standard code, feature's strand, joined segments in coding order) to a residue other than the annotated one;
+otherwise the codon's positions with disjoint base sets -/
+theorem coding (ref q : List Nat) (reg : Region) (hl : ref.length = q.length) (hr : OkRow ref) (hq : OkRow q)
+    (hv : ValidPositions ref q reg.positions) :
+    getAAsPair (ref.map (enc false)) (q.map (enc false)) (refCols (ref.map (enc false))) reg = regionRecords ref q reg :=
+  aas_spec ref q reg hl hr hq hv
+
+open Gofasta.Lemmas in
+/-- **C04.records_exact** — the reported list, as a set -/
+theorem records_exact (ref q : List Nat) (regions : List Region) (inter : List Nat) (hl : ref.length = q.length)
+    (hr : OkRow ref) (hq : OkRow q) (hv : ∀ reg ∈ regions, ValidPositions ref q reg.positions) (v : Variant) :
+    v ∈ getVariantsPair (ref.map (enc false)) (q.map (enc false)) regions inter ↔
+      (v ∈ getIndelsPair (ref.map (enc false)) (q.map (enc false)) ∨
+       v ∈ (inter.filter (differsAt ref q)).map (nucRecord ref q) ∨
+       ∃ reg ∈ regions, v ∈ regionRecords ref q reg) ∧ ¬ isDel0 v :=
+  variants_mem ref q regions inter hl hr hq hv v
+
+open Gofasta.Lemmas in
+/-- **C04.aa_call_sound** — every amino-acid record of a codon is a true translation: the query codon's expansions
+all give the reported residue, and it differs from the annotated one -/
+theorem aa_call_sound (ref q : List Nat) (reg : Region) (k : Nat) (codon : List Nat) (v : Variant)
+    (h : aaCall ref q reg k codon = some v) :
+    ∃ t, specCodonAA reg.strand (codon.filterMap fun p => (pairAt ref q p).map (·.2)) = some t ∧
+      t ≠ reg.translation.getD k 0 ∧ t ≠ 88 ∧ v.queAl = [t] ∧ v.refAl = [reg.translation.getD k 0] ∧
+      v.feature = reg.name ∧ v.residue = k + 1 := by
+  unfold aaCall at h
+  simp only [] at h
+  split at h
+  · rename_i t ht
+    split at h
+    · rename_i hne
+      cases h
+      exact ⟨t, ht, hne, specCodonAA_ne_X _ _ _ ht, rfl, rfl, rfl, rfl⟩
+    · cases h
+  · cases h
+
+/-- **C04.aa_call_complete** — conversely, a codon whose query translation is unambiguous and differs from the
+annotated residue has a call -/
+theorem aa_call_complete (ref q : List Nat) (reg : Region) (k : Nat) (codon : List Nat) (t : Nat)
+    (ht : specCodonAA reg.strand (codon.filterMap fun p => (pairAt ref q p).map (·.2)) = some t)
+    (hne : t ≠ reg.translation.getD k 0) : (aaCall ref q reg k codon).isSome = true := by
+  unfold aaCall
+  simp only [ht]
+  rw [if_pos hne]
+  rfl
+
+open Gofasta.Lemmas in
+/-- **C04.no_snp_lost (coding)** — every position of a codon with disjoint base sets is mentioned: as its own
+`nuc:` record, or inside the SNP list of the codon's amino-acid record -/
+theorem codon_mentions_every_snp (ref q : List Nat) (reg : Region) (k : Nat) (codon : List Nat) (p : Nat)
+    (hp : p ∈ codon) (hd : differsAt ref q p = true) :
+    nucRecord ref q p ∈ codonRecs ref q reg k codon ∨
+    ∃ v ∈ codonRecs ref q reg k codon, v.kind = .aa ∧
+      ∃ l : List Variant, nucRecord ref q p ∈ l ∧ v.snps = joinWith ";" (l.map fmtNuc) := by
+  have hm : nucRecord ref q p ∈ (codon.filter (differsAt ref q)).map (nucRecord ref q) :=
+    List.mem_map.2 ⟨p, List.mem_filter.2 ⟨hp, hd⟩, rfl⟩
+  unfold codonRecs
+  cases h : aaCall ref q reg k codon with
+  | none => left; exact hm
+  | some v =>
+    right
+    refine ⟨v, List.mem_cons_self, ?_, (codon.filter (differsAt ref q)).map (nucRecord ref q), hm, ?_⟩
+    · unfold aaCall at h
+      simp only [] at h
+      split at h
+      · split at h
+        · cases h; rfl
+        · cases h
+      · cases h
+    · unfold aaCall at h
+      simp only [] at h
+      split at h
+      · split at h
+        · cases h; rfl
+        · cases h
+      · cases h
 
 end Gofasta.Props.C04
